@@ -116,6 +116,7 @@ def common_dims(rng, idx=None):
         "noise": list(rng.choice(NOISES)),
         "early_reply": rng.random() < 0.25,
         "dev_version": rng.choice([0x01000000, 0x01000000, 0x01000001, 1]),   # what the device announces in its CNXN (the host speaks 0x01000000)
+        "eager": rng.random() < 0.5,       # fast device (answers hit the wire at once: a WRTE may be in flight when the host closes) vs. slow device
     }
 
 
@@ -134,6 +135,7 @@ def make_session(impl, dims, seed, connect=True, **kw):
     s.dims = dims
     sim.sync_plan.early_reply = bool(dims.get("early_reply", False))
     sim.version = dims.get("dev_version", 0x01000000)
+    sim.eager = bool(dims.get("eager", False))
     if connect:
         out = s.call("connect")
         if not out.ok or out.value is not True:
